@@ -54,23 +54,38 @@ def run(m: Model, r: Report, tier: str) -> None:
     ps = m.require_function(f"{SVC}.ServicesScanner.perform_scan")
     # ---------------------------------------------------------------- R1
     whiles = [n for n in walk_no_nested(ps.node) if isinstance(n, ast.While)]
-    if len(whiles) != 1 or not isinstance(whiles[0].test, ast.Compare) or not isinstance(whiles[0].test.left, ast.Name):
-        raise AnalysisError(f"{ps.qualname}: service id loop not found")
-    W = whiles[0]
-    var = W.test.left.id
-    init = [n for n in ps.node.body if isinstance(n, ast.Assign) and ast.unparse(n.targets[0]) == var]
-    i0 = m.try_fold(ps.module, init[0].value) if len(init) == 1 else None
-    lim = m.try_fold(ps.module, W.test.comparators[0])
-    step_first = isinstance(W.body[0], ast.AugAssign) and ast.unparse(W.body[0].target) == var and isinstance(W.body[0].op, ast.Add) and \
-        m.try_fold(ps.module, W.body[0].value) == 1
-    op = type(W.test.ops[0]).__name__
+    range_loops = [n for n in ps.node.body if isinstance(n, ast.For) and isinstance(n.target, ast.Name) and isinstance(n.iter, ast.Call) and ast.unparse(n.iter.func) == "range"
+                   and any("send_raw(" in ast.unparse(x) for x in ast.walk(n))]
     lo = hi = None
-    if isinstance(i0, int) and isinstance(lim, int) and step_first:
-        lo = i0 + 1
-        hi = lim if op == "Lt" else lim + 1 if op == "LtE" else None
+    if len(whiles) == 1 and isinstance(whiles[0].test, ast.Compare) and isinstance(whiles[0].test.left, ast.Name) and not range_loops:
+        # `sid = -1; while sid < 0xFF: sid += 1; ...`
+        W = whiles[0]
+        var = W.test.left.id
+        init = [n for n in ps.node.body if isinstance(n, ast.Assign) and ast.unparse(n.targets[0]) == var]
+        i0 = m.try_fold(ps.module, init[0].value) if len(init) == 1 else None
+        lim = m.try_fold(ps.module, W.test.comparators[0])
+        step_first = isinstance(W.body[0], ast.AugAssign) and ast.unparse(W.body[0].target) == var and isinstance(W.body[0].op, ast.Add) and \
+            m.try_fold(ps.module, W.body[0].value) == 1
+        op = type(W.test.ops[0]).__name__
+        if isinstance(i0, int) and isinstance(lim, int) and step_first:
+            lo = i0 + 1
+            hi = lim if op == "Lt" else lim + 1 if op == "LtE" else None
+        own_step = W.body[0]
+        shape = f"init {i0}, guard `{ast.unparse(W.test)}`, increment first: {step_first}"
+    elif len(range_loops) == 1 and not whiles:
+        # `for sid in range(0x100): ...`
+        W = range_loops[0]
+        var = W.target.id
+        ra = [m.try_fold(ps.module, a_) for a_ in W.iter.args]
+        if all(isinstance(x, int) for x in ra) and len(ra) in (1, 2):
+            lo, hi = (0, ra[0] - 1) if len(ra) == 1 else (ra[0], ra[1] - 1)
+        own_step = None
+        shape = f"`for {var} in {ast.unparse(W.iter)}`"
+    else:
+        raise AnalysisError(f"{ps.qualname}: service id loop not found")
     r.check((lo, hi) == (0, 0xFF), "R1", f"{ps.qualname}#sid-domain",
-            f"service ids probed: {lo}..{hi} (init {i0}, guard `{ast.unparse(W.test)}`, increment first: {step_first}); expected 0x00..0xFF", loc=ps.loc)
-    other = [n for n in ast.walk(W) if isinstance(n, (ast.Assign, ast.AugAssign)) and n is not W.body[0] and
+            f"service ids probed: {lo}..{hi} ({shape}); expected 0x00..0xFF", loc=ps.loc)
+    other = [n for n in ast.walk(W) if isinstance(n, (ast.Assign, ast.AugAssign)) and n is not own_step and
              any(ast.unparse(t) == var for t in (n.targets if isinstance(n, ast.Assign) else [n.target]))]
     r.check(not other, "R1", f"{ps.qualname}#sid-only-steps", f"{var} is modified elsewhere in the loop", loc=ps.loc)
     filt = [n for n in W.body if isinstance(n, ast.If) and "scan_response_ids" in ast.unparse(n.test)]
@@ -127,20 +142,56 @@ def run(m: Model, r: Report, tier: str) -> None:
     for n in ast.walk(helper.node):
         if isinstance(n, ast.List):
             helper_set |= codes_in(m, helper, n)
-    ns = [i for i in ifs if isinstance(i.body[-1], ast.Break) and "isinstance(_L, NegativeResponse)" in m.mtext(ps, i.test)]
-    le = [i for i in ifs if isinstance(i.body[-1], ast.Continue) and "isinstance(_L, NegativeResponse)" in m.mtext(ps, i.test)]
-    ns_set = codes_in(m, ps, ns[0].test) if len(ns) == 1 else set()
-    le_set = codes_in(m, ps, le[0].test) if len(le) == 1 else set()
-    r.check(ns_set == helper_set == {"serviceNotSupported", "serviceNotSupportedInActiveSession"}, "R4", f"{ps.qualname}#not-supported-set",
-            f"not-supported codes in the scanner {sorted(ns_set)} vs helper {sorted(helper_set)}", loc=ps.loc)
-    r.check(le_set == {"incorrectMessageLengthOrInvalidFormat"}, "R4", f"{ps.qualname}#length-error-set", f"length-error codes: {sorted(le_set)}", loc=ps.loc)
-    tail = LL.body[LL.body.index(ifs[-1]) + 1:] if ifs else []
-    rec = [s for s in tail if isinstance(s, ast.Assign) and isinstance(s.targets[0], ast.Subscript) and ast.unparse(s.targets[0].slice) == var and isinstance(s.value, ast.Name)]
-    r.check(len(rec) == 1 and isinstance(LL.body[-1], ast.Break) and len(ifs) == 2, "R4", f"{ps.qualname}#record-otherwise",
-            "a service must be recorded (and probing stopped) exactly when the reply is neither not-supported nor a length error", loc=ps.loc)
-    r.check(all(isinstance(i.test, ast.BoolOp) and isinstance(i.test.op, ast.And) and m.mtext(ps, i.test.values[0]) == "isinstance(_L, NegativeResponse)"
-                and isinstance(i.test.values[1], ast.Compare) and isinstance(i.test.values[1].ops[0], ast.In) for i in ns + le) and len(ns + le) == 2, "R4",
-            f"{ps.qualname}#classification-atoms", "both classifications must be `isinstance(resp, NegativeResponse) and resp.response_code in [...]`", loc=ps.loc)
+    # what happens to a reply, evaluated over its kinds (the statements after the exchange are interpreted; no gallia code runs): not-supported ends the probing of
+    # this service without a record, a length error tries the next payload length, everything else (positive, any other negative) is recorded and ends the probing
+    from sa import miniterp as _mtc
+    tail_c = LL.body[LL.body.index(tries[0]) + 1:] if len(tries) == 1 else []
+    respv = sorted({n.targets[0].id for n in ast.walk(tries[0]) if isinstance(n, ast.Assign) and isinstance(n.targets[0], ast.Name) and "send_raw(" in ast.unparse(n.value)}) if len(tries) == 1 else []
+    recs_ = [n for st_ in tail_c for n in ast.walk(st_) if isinstance(n, ast.Assign) and isinstance(n.targets[0], ast.Subscript) and isinstance(n.targets[0].value, ast.Name)]
+    outcomes_c, unk_c = {}, None
+    if len(respv) != 1 or not recs_:
+        unk_c = f"reply variable {respv} / record store not found"
+    else:
+        RV, REC = respv[0], recs_[0].targets[0].value.id
+        codes_ = {"serviceNotSupported": "NS", "serviceNotSupportedInActiveSession": "NS", "incorrectMessageLengthOrInvalidFormat": "LEN", "securityAccessDenied": "REC",
+                  "conditionsNotCorrect": "REC", "subFunctionNotSupported": "REC", "requestOutOfRange": "REC"}
+        try:
+            for kind, code in [("positive", None)] + [("negative", c_) for c_ in codes_]:
+                env_c = {RV: _mtc.Obj(kind=kind, response_code=code), REC: {}, var: 0x22, **{f"UDSErrorCodes.{c_}": c_ for c_ in codes_}}
+
+                def orc(call, env_, kind=kind):
+                    f_ = ast.unparse(call.func)
+                    if f_ == "isinstance" and len(call.args) == 2 and ast.unparse(call.args[0]) == RV:
+                        return kind == "negative" if "NegativeResponse" in ast.unparse(call.args[1]) else (kind == "positive" if "PositiveResponse" in ast.unparse(call.args[1]) else NotImplemented)
+                    if f_.split(".")[-1] == "suggests_service_not_supported":
+                        return kind == "negative" and codes_.get(env_[RV]["response_code"]) == "NS"
+                    return None
+                jump = "falls through"
+                try:
+                    _mtc.exec_body(tail_c, env_c, orc)
+                except _mtc._Jump as j_:
+                    jump = type(j_.node).__name__
+                outcomes_c[code or "positive"] = (bool(env_c[REC]), jump)
+        except (AnalysisError, _mtc.Raised) as ex_:
+            unk_c = str(ex_)
+    want_c = {"positive": (True, "Break"), **{c_: {"NS": (False, "Break"), "LEN": (False, "Continue"), "REC": (True, "Break")}[k_] for c_, k_ in
+                                              {"serviceNotSupported": "NS", "serviceNotSupportedInActiveSession": "NS", "incorrectMessageLengthOrInvalidFormat": "LEN",
+                                               "securityAccessDenied": "REC", "conditionsNotCorrect": "REC", "subFunctionNotSupported": "REC", "requestOutOfRange": "REC"}.items()}}
+    bad_c = {k_: v_ for k_, v_ in outcomes_c.items() if v_ != want_c[k_]}
+    ns_bad = {k_: v_ for k_, v_ in bad_c.items() if want_c[k_] == (False, "Break") or v_ == (False, "Break")}
+    le_bad = {k_: v_ for k_, v_ in bad_c.items() if k_ not in ns_bad and (want_c[k_] == (False, "Continue") or v_ == (False, "Continue"))}
+    rest_bad = {k_: v_ for k_, v_ in bad_c.items() if k_ not in ns_bad and k_ not in le_bad}
+    r.check(helper_set == {"serviceNotSupported", "serviceNotSupportedInActiveSession"}, "R4", f"{helper.qualname}#set", f"helper codes {sorted(helper_set)}", loc=helper.loc)
+    r.check3(None if unk_c else not ns_bad, "R4", f"{ps.qualname}#not-supported-set",
+             f"(reply -> (recorded, then)) {ns_bad}: exactly serviceNotSupported / serviceNotSupportedInActiveSession end the probing of a service without a record", loc=ps.loc,
+             unknown_msg=f"classification outside the evaluated language: {unk_c}")
+    r.check3(None if unk_c else not le_bad, "R4", f"{ps.qualname}#length-error-set", f"(reply -> (recorded, then)) {le_bad}: exactly incorrectMessageLengthOrInvalidFormat tries the next length",
+             loc=ps.loc, unknown_msg=f"classification outside the evaluated language: {unk_c}")
+    r.check3(None if unk_c else not rest_bad, "R4", f"{ps.qualname}#record-otherwise",
+             f"(reply -> (recorded, then)) {rest_bad}: a service must be recorded (and probing stopped) exactly when the reply is neither not-supported nor a length error", loc=ps.loc,
+             unknown_msg=f"classification outside the evaluated language: {unk_c}")
+    r.check3(None if unk_c else not bad_c, "R4", f"{ps.qualname}#classification-atoms", f"classification table differs: {bad_c}", loc=ps.loc,
+             unknown_msg=f"classification outside the evaluated language: {unk_c}")
     outer_breaks = [n for n in ast.walk(W) if isinstance(n, ast.Break) and not any(n is x for x in ast.walk(LL))]
     r.check(not outer_breaks, "R1", f"{ps.qualname}#no-early-end", "the service id loop must not be left early (a break would skip all remaining ids)", loc=ps.loc)
     breaks = [n for n in ast.walk(LL) if isinstance(n, ast.Break)]
